@@ -63,6 +63,10 @@ def run(ctx):
     cases = sp5.sample(ctx.rng, budget // 2) + sp6.sample(ctx.rng, budget // 2)
     ctx.cov["space"] = {"n5": sp5.size, "n6": sp6.size}
     shared.run_reduce_and_validate(ctx, cases, tag="c16")
+    from . import compose
+
+    # Flox.tla behaviours without requested labels: the labels come back in the order Factorize.tla says
+    compose.replay(ctx, {"compose:labels"}, n=800 if ctx.tier == "quick" else 20000, only=lambda b: not b["cfg"]["hasExpected"])
     ctx.cov["rule"] = ("(labels int|str|float+NaN in unsorted/interleaved patterns, sort in {T,F}, expected_groups absent/sorted/unsorted/superset, 11 reductions, "
                        "eager | 4 strategies x chunkings x numpy|dask labels); non-trivial = group with >=2 members or a special value")
     ctx.assumptions += ["for chunked inputs with sort=False and no expected_groups the property leaves the order open: any permutation without loss or repetition is accepted"]
